@@ -103,3 +103,11 @@ Proof.
   rewrite skipn_firstn_comm, firstn_firstn, skipn_skipn'.
   f_equal; [lia|]. f_equal. lia.
 Qed.
+
+Lemma slice_app_l_gen {A} (a b : list A) off n : off + n <= len a -> slice (a ++ b) off n = slice a off n.
+Proof.
+  intros H. unfold slice. rewrite skipn_app, firstn_app.
+  rewrite skipn_length.
+  replace (N.to_nat n - (length a - N.to_nat off))%nat with 0%nat by (unfold len in H; lia).
+  cbn [firstn]. apply app_nil_r.
+Qed.
